@@ -25,7 +25,9 @@ MINIMUM = {'R02.1': 3, 'R02.2': 4, 'R02.3': 2, 'R02.4': 2}
 
 # rules of sibling properties that are necessary conditions of this one too
 # (evaluated by the sibling module on the same graphs, reported under this property)
-ALSO = {'C04': {'R04.1': 'same-named entries of concurrent puts get different names: exclusive '
+ALSO = {'C03': {'R03.1': 'the Path written decodes back to the location (no byte-level quoting the '
+                  'readers cannot invert)'},
+ 'C04': {'R04.1': 'same-named entries of concurrent puts get different names: exclusive '
                   'creation',
          'R04.2': 'the payload goes to the name whose .trashinfo was won'},
  'C10': {'R10.4': 'a freshly trashed payload must not be purged as an orphan before it can be '
